@@ -238,10 +238,10 @@ def run_harness(binp, engine, cases, shards=16, timeout=900, extra_env=None):
             err, rc = "timeout", -9
         res = {}
         for line in out.split("\n"):
-            line = line.strip()
-            if line.startswith("{"):
+            k = line.find("@@R ")
+            if k >= 0:
                 try:
-                    r = json.loads(line)
+                    r = json.loads(line[k + 4:])
                     res[r["id"]] = r
                 except Exception:
                     pass
